@@ -72,3 +72,54 @@ Print Assumptions C03_presence_matrix.
 Theorem C03_satisfiable : revision_valid ex_revision = true /\ wf_extra (effective_extra ex_revision) = true.
 Proof. exact ex_revision_ok. Qed.
 Print Assumptions C03_satisfiable.
+
+(* ---- cross-model consistency C03 x C16 (proofs/CrossModelDates.v).  The author
+   and committer lines are Rel.format_author = fullname followed by C16's
+   Time.author_date_part, whose date text C16_format_date_exact characterises.
+   For every revision with an author and a date whose microseconds are in
+   [0, 10^6) (what Timestamp accepts: C16_range_rejected), the "author" header
+   of the manifest - the one the independent commit parser returns - is EXACTLY
+       fullname SP txt SP offset_bytes,    txt = Time.format_date (ts x),
+   where Time.parse_date reads (seconds, microseconds) back from txt; txt is the
+   decimal of the seconds when microseconds = 0, else that decimal, ".", and
+   the 6-digit zero-padded microseconds without their trailing zeros; txt
+   contains no space, so when the offset bytes contain none either the
+   independent reader [parse_author_line] (split at the last two spaces, then
+   parse_date) recovers fullname, (seconds, microseconds) and the offset bytes
+   from the line.  The same for committer / committer_date
+   ([date_line_exact fn x line] is, by definition, the conjunction spelled out
+   for the author with fn for the fullname); without a date the line is the
+   fullname alone. *)
+From Coq Require Import ZArith Bool.
+From SWH.lib Require Dec DecPad.
+From SWH.proofs Require Import CrossModelDates.
+
+Theorem C03_author_date_exact : forall (r : revision),
+  (forall a x, v_author r = Some a -> v_date r = Some x ->
+     (0 <= microseconds (ts x) < 1000000)%Z ->
+     exists line,
+       In (bs "author", line) (rev_headers r) /\
+       (wf_extra (effective_extra r) = true ->
+          option_map c_author (parse_commit (rev_manifest r)) = Some (Some line)) /\
+       let s := seconds (ts x) in
+       let us := microseconds (ts x) in
+       let txt := format_date (ts x) in
+       line = fullname a ++ [SP] ++ txt ++ [SP] ++ offset_bytes x /\
+       parse_date txt = Some (s, us) /\
+       (us = 0%Z -> txt = Dec.dec_Z s) /\
+       (us <> 0%Z -> exists frac,
+           txt = Dec.dec_Z s ++ [DOT] ++ frac /\ frac <> [] /\ forallb Dec.is_digit frac = true /\
+           last frac 0%N <> ZERO /\ exists k, frac ++ repeat ZERO k = Dec.dec_pad 6 (Z.to_N us)) /\
+       ~ In SP txt /\
+       (~ In SP (offset_bytes x) -> parse_author_line line = Some (fullname a, (s, us), offset_bytes x))) /\
+  (forall c y, v_committer r = Some c -> v_committer_date r = Some y ->
+     (0 <= microseconds (ts y) < 1000000)%Z ->
+     exists line,
+       In (bs "committer", line) (rev_headers r) /\
+       (wf_extra (effective_extra r) = true ->
+          option_map c_committer (parse_commit (rev_manifest r)) = Some (Some line)) /\
+       date_line_exact (fullname c) y line) /\
+  (forall a, v_author r = Some a -> v_date r = None -> In (bs "author", fullname a) (rev_headers r)) /\
+  (forall c, v_committer r = Some c -> v_committer_date r = None -> In (bs "committer", fullname c) (rev_headers r)).
+Proof. exact rev_author_date_exact. Qed.
+Print Assumptions C03_author_date_exact.
